@@ -90,12 +90,14 @@ def applyEv (M : Nat) (v : List Nat) : Ev → List Nat × Option Err
   | .pushFront x => (x :: v, if M < (x :: v).length then some (.maxSizeExceeded M) else none)
   | .popBack => (v.dropLast, none)
   | .popFront => (v.tail, none)
-  | .insert i x => if v.length < i then (v, some (.invalidIndex i)) else (v.insertIdx i x, none)
+  | .insert i x =>
+    if v.length < i then (v, some (.invalidIndex i))
+    else (v.insertIdx i x, if M < (v.insertIdx i x).length then some (.maxSizeExceeded M) else none)
   | .set i x => if v.length ≤ i then (v, some (.invalidIndex i)) else (v.set i x, none)
   | .remove i => if v.length ≤ i then (v, some (.invalidIndex i)) else (v.eraseIdx i, none)
   | .swapRemoveBack i => if v.length ≤ i then (v, some (.invalidIndex i)) else (swapRemove v i, none)
   | .swapRemoveFront i => if v.length ≤ i then (v, some (.invalidIndex i)) else (swapRemoveFront v i, none)
-  | .resize n x => (resize v n x, none)
+  | .resize n x => if v.length < n ∧ M < n then (v, some (.maxSizeExceeded M)) else (resize v n x, none)
   | .truncate n => (v.take n, none)
   | .retain keep => (retainFrom (fun p => keep.contains p) 0 v, none)
   | .retainNot rm => (retainFrom (fun p => !rm.contains p) 0 v, none)
@@ -176,7 +178,8 @@ theorem apply_ok' (M : Nat) (c : List Nat) (op : Op) (_hs : c.length ≤ M) (hs'
   | insert i x =>
     by_cases h : i ≤ c.length
     · have : ¬ c.length < i := by omega
-      simp [apply, h, feedWith, applyEv, this]
+      have hlen : ¬ M < (c.insertIdx i x).length := by simp [apply, h] at hs'; omega
+      simp [apply, h, feedWith, applyEv, this, hlen]
     · simp [apply, h, feedWith]
   | remove i =>
     by_cases h : i < c.length
@@ -194,7 +197,11 @@ theorem apply_ok' (M : Nat) (c : List Nat) (op : Op) (_hs : c.length ≤ M) (hs'
       simp [apply, h, feedWith, applyEv, this]
     · simp [apply, h, feedWith]
   | resize n x =>
-    by_cases h : n = c.length <;> simp [apply, h, feedWith, applyEv]
+    by_cases h : n = c.length
+    · simp [apply, h, feedWith, applyEv]
+    · have hlen : ¬ (c.length < n ∧ M < n) := by
+        simp [apply, h, resize_length] at hs'; omega
+      simp [apply, h, feedWith, applyEv, hlen]
   | truncate n =>
     by_cases h : n < c.length <;> simp [apply, h, feedWith, applyEv]
   | clear =>
